@@ -25,7 +25,11 @@
 (*                                                                         *)
 (* The rules are written from the docstrings / comments / exception names. *)
 (* Where the code knowingly does something else the operator is marked     *)
-(* DEVIATION and says what the code does.                                  *)
+(* DEVIATION and says what the code does.  Where a statement breaks        *)
+(* several rules at once the class reported is that of the first check in  *)
+(* the order of the implementation (the documentation fixes no order);     *)
+(* Inv_ErrSound states the order-free part: the class names a rule the     *)
+(* last statement does break.                                              *)
 (***************************************************************************)
 EXTENDS Naturals, Sequences, FiniteSets, TLC, Json
 
